@@ -67,6 +67,7 @@ type wspec struct {
 	CAlg  string
 	PtLen int
 	Key   int
+	Kid   string // key ID set on the worker's JWK ("": none). Different workers of a cast may carry the SAME key ID on DIFFERENT keys (two key stores that both call their key "mykey")
 
 	// cron
 	Spec   string
@@ -96,7 +97,7 @@ func (w wspec) String() string {
 	case kAead:
 		return head + fmt.Sprintf(" variant=%d pt=%d iter=%d aad=%d prefix=%d}", w.Variant, w.PtLen, w.Iter, w.AadLen, w.Prefix)
 	case kSym, kSig, kRSA:
-		return head + fmt.Sprintf(" alg=%s pt=%d key=%d}", w.CAlg, w.PtLen, w.Key)
+		return head + fmt.Sprintf(" alg=%s pt=%d key=%d kid=%q}", w.CAlg, w.PtLen, w.Key, w.Kid)
 	case kCron:
 		return head + fmt.Sprintf(" parser=%d spec=%q from=%d.%09d steps=%d}", w.Parser, w.Spec, w.From, w.Nanos, w.Steps)
 	case kLog:
@@ -111,12 +112,13 @@ type cast struct {
 	Rounds     int    // how many times the concurrent phase is run
 	AeadKey    uint64 // the keys of the cast's shared AEADs are expanded from it (the same keys in the solo and in the concurrent phase)
 	Workers    []wspec
+	Cold       bool   // the first concurrent phase runs BEFORE the solo phase: whatever a package computes on first use (a lazily built table, a cache entry for a name nobody asked for before) is first computed while the other workers run
 	CronFamily string // if set, the cron workers of the cast parse this one expression under different zones (informational: the specs are in Workers)
 }
 
 func (c cast) encode() string {
 	var b strings.Builder
-	fmt.Fprintf(&b, "cast{procs=%d rounds=%d", c.Procs, c.Rounds)
+	fmt.Fprintf(&b, "cast{procs=%d rounds=%d cold=%v", c.Procs, c.Rounds, c.Cold)
 	if c.count(kAead) > 0 {
 		fmt.Fprintf(&b, " aeadkey=%d", c.AeadKey)
 	}
@@ -220,6 +222,7 @@ func genCrypto(rt *rapid.T, w *wspec) {
 		w.PtLen = rapid.IntRange(0, 100).Draw(rt, "ptLen")
 	}
 	w.Key = rapid.IntRange(0, 5).Draw(rt, "key")
+	w.Kid = rapid.SampledFrom([]string{"", "", "k", "mykey", "mykey"}).Draw(rt, "kid")
 }
 
 type cronBounds struct {
@@ -282,6 +285,15 @@ func genCronField(rt *rapid.T, b cronBounds) string {
 
 var cronZones = []string{"UTC", "America/New_York", "Europe/Berlin", "Asia/Tokyo", "Asia/Kolkata", "Australia/Sydney", "Nowhere/Land"}
 
+// genZone: one of a handful of zones that soon have all been seen by the process, or any name of the tz database
+// (most of them named for the first time in the process when the case runs).
+func genZone(rt *rapid.T) string {
+	if rapid.Bool().Draw(rt, "rareZone") {
+		return rapid.SampledFrom(allZoneNames).Draw(rt, "zoneName")
+	}
+	return rapid.SampledFrom(cronZones).Draw(rt, "zone")
+}
+
 func genCron(rt *rapid.T, w *wspec) {
 	w.Parser = rapid.IntRange(0, len(cronParsers)-1).Draw(rt, "parser")
 	p := cronParsers[w.Parser]
@@ -302,7 +314,7 @@ func genCron(rt *rapid.T, w *wspec) {
 		spec = strings.Join(fs, " ")
 	}
 	if rapid.IntRange(0, 2).Draw(rt, "tz") == 0 {
-		spec = rapid.SampledFrom([]string{"TZ=", "CRON_TZ="}).Draw(rt, "tzKey") + rapid.SampledFrom(cronZones).Draw(rt, "zone") + " " + spec
+		spec = rapid.SampledFrom([]string{"TZ=", "CRON_TZ="}).Draw(rt, "tzKey") + genZone(rt) + " " + spec
 	}
 	w.Spec = spec
 	w.From = rapid.Int64Range(946684800, 2051222400).Draw(rt, "from") // 2000-01-01 .. 2035-01-01
@@ -349,6 +361,7 @@ func genCast(rt *rapid.T, procs []int) cast {
 	c.Procs = rapid.SampledFrom(procs).Draw(rt, "procs")
 	c.Rounds = rapid.IntRange(1, 3).Draw(rt, "rounds")
 	c.AeadKey = rapid.Uint64().Draw(rt, "aeadKey")
+	c.Cold = rapid.IntRange(0, 2).Draw(rt, "cold") == 0
 	n := rapid.IntRange(8, 32).Draw(rt, "workers")
 	var kinds []string
 	aeadVariants := 1 // how many different AEAD objects the aead workers of the cast are spread over (few, so that objects really are shared)
@@ -393,6 +406,8 @@ func genCast(rt *rapid.T, procs []int) cast {
 	if rapid.IntRange(0, 2).Draw(rt, "cronFamily") == 0 {
 		base := rapid.SampledFrom([]string{"@yearly", "@annually", "@monthly", "@weekly", "@daily", "@midnight", "@hourly", "@every 90s", "0 12 * * *", "30 4 1 * *", "15 */6 * * MON"}).Draw(rt, "familySpec")
 		z := rapid.IntRange(0, len(cronZones)-2).Draw(rt, "familyZone")
+		rare := rapid.Bool().Draw(rt, "familyRareZones") // every member names another zone of the tz database
+		zr := rapid.IntRange(0, len(allZoneNames)-1).Draw(rt, "familyRareStart")
 		members := 0
 		for i := range c.Workers {
 			w := &c.Workers[i]
@@ -402,6 +417,9 @@ func genCast(rt *rapid.T, procs []int) cast {
 			// parsers 0 (ParseStandard) and the descriptor-enabled own parser understand all of the above (five fields + descriptors)
 			w.Parser = []int{0, 2}[members%2]
 			zone := cronZones[(z+members)%(len(cronZones)-1)]
+			if rare {
+				zone = allZoneNames[(zr+members*37)%len(allZoneNames)]
+			}
 			w.Spec = []string{"TZ=", "CRON_TZ="}[members%2] + zone + " " + base
 			if members%4 == 3 {
 				w.Spec = base // no prefix: the parser's default location
